@@ -41,6 +41,10 @@ class SourceModule(Object):
         self._loading = True
         try:
             scope = extract_scope(source, self.project)
+        except SyntaxError:
+            # a module that does not parse (a file saved in the middle of
+            # an edit) has no names
+            scope = extract_scope(Source('', self.filename), self.project)
         finally:
             self._loading = False
         return scope
